@@ -1061,6 +1061,19 @@ struct json_object *json_tokener_parse_ex(struct json_tokener *tok, const char *
 				int64_t num64;
 				uint64_t numuint64;
 				double numd;
+				if (tok->flags & JSON_TOKENER_STRICT)
+				{
+					/* no superfluous leading zero, whatever follows:
+					 * "00", "-01", "01.5" and "00e1" are not JSON numbers */
+					const char *digits = tok->pb->buf;
+					if (*digits == '-')
+						digits++;
+					if (digits[0] == '0' && digits[1] >= '0' && digits[1] <= '9')
+					{
+						tok->err = json_tokener_error_parse_number;
+						goto out;
+					}
+				}
 				if (!tok->is_double && tok->pb->buf[0] == '-' &&
 				    json_parse_int64(tok->pb->buf, &num64) == 0)
 				{
